@@ -344,10 +344,10 @@ pub fn exec_history<'a, B: Robdd<'a>>(ctx: &mut Ctx, cfg: &HistCfg, b: &'a B, op
                         let (q, u) = arg!(y);
                         let (r, w) = arg!(z);
                         if checks.function || checks.std_triple {
-                            ctx.seen("ite_arg_classes", &triple_class(p, q, r, b.order_ref()));
+                            ctx.seen("ite_arg_classes", &triple_class(p, q, r, &b.order_ref()));
                         }
                         if checks.std_triple {
-                            check_std_triple(ctx, &mut walker, b.order_ref(), p, q, r, &t.ite(&u, &w));
+                            check_std_triple(ctx, &mut walker, &b.order_ref(), p, q, r, &t.ite(&u, &w));
                         }
                         (b.ite(p, q, r), t.ite(&u, &w))
                     }
@@ -396,7 +396,20 @@ pub fn exec_history<'a, B: Robdd<'a>>(ctx: &mut Ctx, cfg: &HistCfg, b: &'a B, op
                         (b.or_lst(&ps), e)
                     }
                     Op::NewVar(pol) => {
-                        let (lbl, p) = b.new_var_(*pol);
+                        // every other time a handle on the order is held across the call: what it
+                        // yields afterwards must be the order as it was (a permutation of the old labels)
+                        let (lbl, p) = if (step + nvars) % 2 == 0 {
+                            let before: Vec<u64> = b.order_ref().in_order_iter().map(|l| l.value()).collect();
+                            let (seen, r) = b.new_var_under_an_order_handle(*pol);
+                            ctx.count("order_handles_held_across_new_var", 1);
+                            if seen != before {
+                                ctx.violation("bdd.order.handle", "a handle on the builder's order taken before new_var does not show the order it was taken from",
+                                    json!({"order_before": before, "seen_through_the_handle_afterwards": seen, "cfg": cfg.to_json()}));
+                            }
+                            r
+                        } else {
+                            b.new_var_(*pol)
+                        };
                         // the new label is the number of variables the builder knew, placed last
                         let want = top + (nvars - cfg.n0);
                         if lbl.value_usize() != want || b.num_vars_() != want + 1 {
@@ -452,7 +465,7 @@ pub fn exec_history<'a, B: Robdd<'a>>(ctx: &mut Ctx, cfg: &HistCfg, b: &'a B, op
                     // scratch traffic); canonicity must survive them
                     match step % 5 {
                         1 => {
-                            let _ = got.cached_semantic_hash(b.order_ref(), &hash_map);
+                            let _ = got.cached_semantic_hash(&b.order_ref(), &hash_map);
                             ctx.count("annotating_queries", 1);
                         }
                         3 => {
@@ -680,8 +693,13 @@ fn order_hash(o: &[usize]) -> u64 {
 
 /// the inherent `RobddBuilder` methods the monitors need, without naming the cache type
 pub trait Robdd<'a>: BddBuilder<'a> {
-    fn order_ref(&self) -> &VarOrder;
+    /// the builder's current order (a copy: `RobddBuilder::order` returned a reference behind a
+    /// `RefCell`'s back before fix F21 and returns a snapshot since; `.clone()` serves both)
+    fn order_ref(&self) -> VarOrder;
     fn new_var_(&'a self, pol: bool) -> (VarLabel, BddPtr<'a>);
+    /// adds a variable at run time while a handle on the order (taken before) is alive, and
+    /// returns what the old handle's iterator yields afterwards
+    fn new_var_under_an_order_handle(&'a self, pol: bool) -> (Vec<u64>, (VarLabel, BddPtr<'a>));
     fn num_vars_(&self) -> usize;
     fn condition_model_(&'a self, p: BddPtr<'a>, m: &PartialModel) -> BddPtr<'a>;
     fn smooth_(&'a self, p: BddPtr<'a>, n: usize) -> BddPtr<'a>;
@@ -694,8 +712,16 @@ thread_local! {
 macro_rules! impl_robdd {
     ($cache:ident) => {
         impl<'a> Robdd<'a> for RobddBuilder<'a, $cache<BddPtr<'a>>> {
-            fn order_ref(&self) -> &VarOrder {
-                self.order()
+            fn order_ref(&self) -> VarOrder {
+                #[allow(clippy::clone_on_copy, noop_method_call)]
+                self.order().clone()
+            }
+            fn new_var_under_an_order_handle(&'a self, pol: bool) -> (Vec<u64>, (VarLabel, BddPtr<'a>)) {
+                let handle = self.order();
+                let it = handle.in_order_iter();
+                let r = self.new_var_(pol);
+                let seen: Vec<u64> = it.map(|l| l.value()).collect();
+                (seen, r)
             }
             fn new_var_(&'a self, pol: bool) -> (VarLabel, BddPtr<'a>) {
                 // the three run-time entry points, in turn
